@@ -10,6 +10,7 @@ import (
 	"sort"
 	"strings"
 	"sync"
+	"sync/atomic"
 	"time"
 
 	"kapverif/rt"
@@ -336,17 +337,28 @@ func Run(r *rt.Run) error {
 		traces[l] = r.NewTrace(fmt.Sprintf("replay%02d", l))
 		sts[l] = &stats{divergedAt: map[string]int{}}
 	}
+	// A tree on which the replayer keeps losing step with the model is either broken in a way TLC will reject in the
+	// traces already recorded, or has drifted from the Impl model: either way replaying thousands more (each costing
+	// its waits) adds nothing.  Stop after maxCut behaviours were cut short; the check decides what that means.
+	const maxCut = 120
+	var cut, skipped int64
 	for l := 0; l < lanes; l++ {
 		wg.Add(1)
 		go func(l int) {
 			defer wg.Done()
 			rng := rand.New(rand.NewSource(r.Seed*1000 + int64(l)))
 			for i := l; i < len(behs); i += lanes {
+				if atomic.LoadInt64(&cut) >= maxCut {
+					atomic.AddInt64(&skipped, 1)
+					continue
+				}
+				before := sts[l].diverged
 				if race > 0 && i%race == race-1 {
 					replayRace(traces[l], names[i], behs[i], i%3 == 1, rng, sts[l])
 				} else {
 					replay(traces[l], names[i], behs[i], i%3 == 1, rng, sts[l])
 				}
+				atomic.AddInt64(&cut, int64(sts[l].diverged-before))
 				key, _ := json.Marshal(behs[i])
 				traces[l].Distinct(string(key))
 			}
@@ -369,6 +381,7 @@ func Run(r *rt.Run) error {
 		}
 	}
 	r.Extra["behaviours_replayed"] = tot.behaviours
+	r.Extra["behaviours_skipped_after_too_many_cut_short"] = skipped
 	r.Extra["behaviours_cut_short_by_a_benign_race_or_deviation"] = tot.diverged
 	r.Extra["behaviours_replayed_without_waiting_(race_mode)"] = tot.raced
 	r.Extra["behaviours_driven_through_the_coordinator"] = tot.viaCoord
@@ -377,6 +390,14 @@ func Run(r *rt.Run) error {
 	r.Extra["steps_in_behaviours"] = tot.totalSteps
 	r.Extra["observation_occurrence_reruns_across_epochs"] = tot.reruns
 	r.Extra["on_error_callbacks"] = tot.onErr
-	r.Finish("TLC -simulate behaviours of SchedulerSim (quiescent schedules of the Impl model: Schedule/re-Schedule/Release with every/cron schedules and offsets, clock jumps of 1-4 s, executions ending ok/error/panic at TLC's chosen moments, 2 ids on 1 or 2 workers) replayed on a real TreeScheduler with a mock clock; distinct by behaviour", false)
+	what := "TLC -simulate behaviours of SchedulerSim"
+	exhaustive := false
+	for _, a := range r.Args {
+		if a == "systematic" {
+			what = "EVERY behaviour TLC enumerates for SchedulerEnum (breadth first, fixed number of environment moves over the small alphabet)"
+			exhaustive = true
+		}
+	}
+	r.Finish(what+" (quiescent schedules of the Impl model: Schedule/re-Schedule/Release with every/cron schedules and offsets, clock jumps of 1-4 s, executions ending ok/error/panic at TLC's chosen moments, 2 ids on 1 or 2 workers) replayed on a real TreeScheduler with a mock clock, a third of them through the real coordinator, a quarter without waiting between moves; distinct by behaviour", exhaustive && skipped == 0)
 	return nil
 }
